@@ -78,6 +78,18 @@ Theorem C06_tree_order_relation : forall (f : forest) (reg : list rt) (rnd : lis
 Proof. exact tree_iterator_order. Qed.
 Print Assumptions C06_tree_order_relation.
 
+(* depth is a function on the nodes, and inside one level "earlier sibling sub-tree" coincides with
+   "earlier document position": the level orders are lexicographic on (depth, +/- document position) *)
+Theorem C06_depth_well_defined : forall (f : forest) (x : nat),
+  NoDup (ids f) -> In x (ids f) -> exists d, depth_f f x d /\ forall d', depth_f f x d' -> d' = d.
+Proof. exact depth_exists_unique. Qed.
+Print Assumptions C06_depth_well_defined.
+
+Theorem C06_same_level_document_order : forall (f : forest) (x y d : nat),
+  NoDup (ids f) -> depth_f f x d -> depth_f f y d -> x <> y -> (left_f f x y <-> before (ids f) x y).
+Proof. exact same_depth_docpos. Qed.
+Print Assumptions C06_same_level_document_order.
+
 (* the direction of level k: LEVEL always left-to-right, LEVEL_RTL always right-to-left,
    ZIGZAG right-to-left on odd depths, ZIGZAG_RTL right-to-left on even depths *)
 Theorem C06_level_direction : forall (m : meth) (rv tg : bool) (k : nat),
